@@ -6,6 +6,7 @@ CONSTANTS
   QueueMax = 2
   MaxTasks = 3
   MaxOps = 7
+  SyncTask = TRUE
   Dev = {}
 INIT Init
 NEXT Next
